@@ -34,6 +34,9 @@ pub enum Policy {
     InterruptEach,
     /// Both: cap c and Interrupted before every accepted call.
     CapInterrupt(usize),
+    /// Never lets one write cross a multiple of p bytes of the output
+    /// (page / frame / block oriented writers).
+    Paged(usize),
 }
 
 #[derive(Debug)]
@@ -82,6 +85,12 @@ impl io::Write for ScriptSink {
                 Policy::Cap(c) => {
                     if buf.len() > c {
                         ans = Ans::Short(c);
+                    }
+                }
+                Policy::Paged(p) => {
+                    let room = p - (self.data.len() % p);
+                    if buf.len() > room {
+                        ans = Ans::Short(room);
                     }
                 }
                 Policy::InterruptEach | Policy::CapInterrupt(_) => {
